@@ -903,8 +903,20 @@ class _Simplify(ast.NodeTransformer):
             return _Getattr().visit(new)
         return node
 
+    @staticmethod
+    def _enum_const(e):
+        """enums.<Class>.<MEMBER> -> (Class, MEMBER)"""
+        if isinstance(e, ast.Attribute) and e.attr.isupper() and isinstance(e.value, ast.Attribute) and isinstance(e.value.value, ast.Name) and e.value.value.id == 'enums':
+            return e.value.attr, e.attr
+        return None
+
     def visit_Compare(self, node):
         self.generic_visit(node)
+        if len(node.ops) == 1 and isinstance(node.ops[0], (ast.Eq, ast.NotEq, ast.Is, ast.IsNot)):
+            a_, b_ = self._enum_const(node.left), self._enum_const(node.comparators[0])
+            # two members of enums.Operation (no aliases in that enumeration) spelled out: the comparison is decided
+            if a_ and b_ and a_[0] == b_[0] and (a_ == b_ or a_[0] == 'Operation'):
+                return ast.copy_location(ast.Constant(value=(a_ == b_) == isinstance(node.ops[0], (ast.Eq, ast.Is))), node)
         if len(node.ops) == 1 and isinstance(node.ops[0], (ast.Is, ast.IsNot)) and isinstance(node.comparators[0], ast.Constant) and node.comparators[0].value is None:
             l = node.left
             if isinstance(l, ast.Lambda) or (isinstance(l, ast.Name) and l.id in self.fnames) or (isinstance(l, ast.Tuple) and l.elts) \
